@@ -12,7 +12,7 @@ ID = "C18"
 LEVEL = "exploration"
 RULE = (
     "cases are JSON-native dictionaries drawn from a seeded generator (share-link shaped {code, options} with real "
-    "program text, arbitrary nested dicts/lists, big ints, floats, any Unicode incl. NUL and lone surrogates, and "
+    "program text, arbitrary nested dicts/lists, big ints, floats, any Unicode incl. NUL and lone surrogates, every line-ending convention (CR LF, CR, LF, mixed, NEL, U+2028, BOM) in program text and in other strings, and "
     "length sweeps that walk the base64 length through every residue mod 4); a case is non-trivial when its encoded "
     "form is longer than 8 characters; distinct = distinct sha1 of the JSON text of d"
 )
@@ -53,15 +53,21 @@ _ALPH = [
 ]
 
 
+# line separators as units: a text layer that "tidies" line endings or whitespace must not sit in the round trip
+_ENDINGS = ["\r\n", "\r", "\n", "\r\r\n", "\n\r", "\u0085", "\u2028", "\u2029", "\x0b", "\x0c", " \n", "\t\r\n", "\ufeff"]
+
+
 def _text(r, maxlen):
     n = r.randrange(0, maxlen)
     k = r.random()
     if k < 0.3:
-        a = _ALPH[0] + _ALPH[1]
+        a = list(_ALPH[0] + _ALPH[1])
     elif k < 0.5:
-        a = "".join(_ALPH)
+        a = list("".join(_ALPH))
     else:
-        a = r.choice(_ALPH) + _ALPH[0]
+        a = list(r.choice(_ALPH) + _ALPH[0])
+    if r.random() < 0.4:
+        a += _ENDINGS
     return "".join(r.choice(a) for _ in range(n))
 
 
@@ -121,6 +127,12 @@ def gen_case(task, i):
         if r.random() < 0.5:
             a = r.randrange(0, len(src) + 1)
             src = src[: a] + _text(r, 30) + src[a:]
+        if r.random() < 0.4:
+            # the same program as another editor / platform would have saved it
+            e = r.choice(_ENDINGS[:5])
+            src = "".join((e if r.random() < 0.9 else r.choice(_ENDINGS)) if ch == "\n" else ch for ch in src)
+            if r.random() < 0.3:
+                src = "\ufeff" + src
         opts = {n: r.random() < 0.5 for n in ("compact", "inline_functions", "remove_labels", "append_version") if r.random() < 0.7}
         return dict(d={"code": src, "options": opts})
     if k < 0.5:
@@ -131,6 +143,10 @@ def gen_case(task, i):
 def check_case(case):
     d = case["d"]
     counters = {"roundtrips": 1}
+    js = json.dumps(d)
+    for name, pat in (("crlf", "\\r\\n"), ("lone_cr", "\\r"), ("unicode_line_separator", "\\u2028"), ("bom", "\\ufeff")):
+        if pat in js:
+            counters["text_with_" + name] = 1
     vio = []
     enc = None
     try:
@@ -176,7 +192,7 @@ def run_case(task, i):
 
 def finish(agg, tier):
     c = agg["counters"]
-    need = ["std_has_plus", "std_has_slash", "pad_0", "pad_1", "pad_2"]
+    need = ["std_has_plus", "std_has_slash", "pad_0", "pad_1", "pad_2", "text_with_crlf", "text_with_lone_cr", "text_with_unicode_line_separator"]
     missing = [k for k in need if not c.get(k)]
     if missing or c.get("roundtrips", 0) < 1000:
         return dict(inconclusive=f"monitor never saw: {missing} (roundtrips={c.get('roundtrips', 0)})")
